@@ -223,12 +223,16 @@ def sampler_proxy():
                  sr=self.n_sr_blocks)
             out = base(self, *a, **k)
             jax.effects_barrier()
+            ws = ee = None
             try:
                 e = float(np.asarray(out[0]))
                 nk = float(np.asarray(out[1]["n_killed_walkers"]))
+                import jax.numpy as jnp
+                ws = float(jnp.sum(out[1]["weights"]))          # exactly the driver's expression for the block weight
+                ee = float(np.asarray(out[1]["e_estimate"]))
             except Exception:  # tracers under jvp/vjp: values are not concrete here
                 e, nk = None, None
-            emit("Exit", rank=rank_of(self), entry=ENTRY_OF[name], energy=e, killed=nk)
+            emit("Exit", rank=rank_of(self), entry=ENTRY_OF[name], energy=e, killed=nk, wsum=ws, eest_out=ee)
             return out
 
         method.__name__ = name
